@@ -27,6 +27,12 @@ def std_runs(n, stubbing=False, heavy=False, **kw):
 
 
 PROPS = {
+    "C01": dict(
+        runs=std_runs(1),
+        bounds="scalars/sums/products at full width; sequences with <= 3 symbolic elements (concrete count per query); maps/sets with <= 2 symbolic keys or 3 concrete keys; 18-tuple of u8",
+        outside="sequences of > 3 non-ZST elements (same loop body, not re-proved); counts >= 2^14 on the encode side except where C15/C18 reach the prefix; bit sequences spanning >= 2 store words",
+        explanation="real Encode::encode_to of each type into a fixed sink vs. the independent SCALE reference encoder, byte for byte, all contents symbolic; every panic/overflow/OOB check on the encode path is a CBMC obligation (no-panic clause).",
+    ),
     "C04": dict(
         level="model_checking",
         runs=std_runs(4) + [dict(features=["c04"], cfg="nostd", solver="kissat", jobs=8,
